@@ -14,5 +14,24 @@ def run_cases(pid, sub, seed, tier, n, *, case_timeout=120, jobs=16, crash_polic
 def rb_factory(sub, seed, binname="loops", feat=""):
     def rb(c):
         i = c.idx % 1_000_000
+        if (c.engine or "").startswith("asan"):
+            return {"cmd": f"ASAN_OPTIONS={cc.ASAN_ENV['ASAN_OPTIONS']} /verif/wl-core/target-asan/x86_64-unknown-linux-gnu/release/{binname} {sub} --seed {seed + 5} --tier thorough --from {i} --to {i+1}"}
         return {"cmd": f"/verif/wl-core/target{feat}/release/{binname} {sub} --seed {seed} --from {i} --to {i+1}"}
     return rb
+
+
+def asan_cases(pid, sub, seed, n, *, binname="loops", offset=3_000_000, case_timeout=200, jobs=6):
+    """Thorough-tier overlay: the same one-process-per-case workload and oracles, rebuilt under AddressSanitizer (nightly).
+    Timing verdicts of this overlay are not believed (ASan slows the runtime 2-4x): a late-type violation becomes inconclusive;
+    everything else, and any ASan report, counts."""
+    d = cc.build_asan(bins=[binname])
+    argv = [os.path.join(d, binname), sub, "--seed", str(seed + 5), "--tier", "thorough"]
+    cs = vlib.fan_out(argv, n, engine="asan (one process per configuration)", case_timeout=case_timeout, jobs=jobs, shard=1, env=cc.ASAN_ENV, crash_policy=cc.asan_policy(pid))
+    known = {k["signature"] for k in vlib.load_known() if k.get("status") == "known"}
+    for c in cs:
+        if c.verdict == "violated" and vlib.TIMING_SIG.search(c.sig or "") and "/asan/" not in (c.sig or "") and c.sig not in known:
+            c.detail = f"{c.sig}: {c.detail}"
+            c.verdict, c.sig, c.nontrivial = "inconclusive", "timing-verdict-under-asan-not-believed", False
+        c.idx += offset
+        c.fp = (c.fp or "") + "#asan"
+    return cs
